@@ -21,6 +21,11 @@ CHECKS = {
    text="For each of 58 wire/storage message types (roles, std, and the network crate's private handshake / preface / RPC types through the hook): well-formed samples with boundary values plus every proto-level value within 1 (quick) / 2 (thorough) field deviations of a sample (field removed, duplicated, retyped, replaced by every element of its boundary alphabet). Every input that decodes is checked on the real encode/decode/canonical_raw: decode(encode(v)) == v, encoding stable under re-decoding, encode(v) is a fixed point of canonical_raw and agrees with an independent minimal-varint writer, every alternative field order (every message node, any depth) normalises to encode(v) and decodes to an equal value. Certificates and schedules built in every vote / listing order must be equal, encode and hash identically; packed / unpacked / mixed repeated scalars are normalised by the real canonical_raw on a harness-built descriptor.",
    note="prost's decoder is trusted; values outside the boundary alphabets, non-minimal varints and >2 simultaneous deviations are outside the scope.",
    technique="exhaustive bounded enumeration of inputs (deviation-bounded proto values x alternative serialisations) on the real code with round-trip / canonical-form oracles"),
+ "C10": dict(
+   category="exploration", design="DESIGN.md §4 C10",
+   text="(a) decoders of all 58 wire/storage types: every proto-level value within 1 (quick) / 2 (thorough) field deviations of the samples without any well-formedness filter, every truncation and every single-byte substitution from {00,01,7f,80,ff} of every sample encoding; (b) connection stages through the real entry points over a scripted in-memory transport: frame::recv_proto (length prefixes {0,1,max,max+1,..,2^32-1} x truncated bodies), preface::accept and the noise handshake (messages of every listed length), noise transport frames after a genuine handshake, mux handshakes announcing 0..2^32-1 streams (differential allocation bound against a peer announcing exactly our limits), and every mux frame header (all 65536 in thorough, a 1800-element cover in quick) x 3 reusable-stream states x DATA lengths through the real Mux::run. Oracle: no panic (catch_unwind), entry point returns, per-case allocation within the stated bound (counting allocator).",
+   note="The node is built with panic=abort, the harness with panic=unwind so that panics are observable; release arithmetic (overflow checks off). Well-signed absurd consensus messages through the replica (design part c) are covered by the C05/C16 replica harness once built. Totality over all byte strings is not enumerable.",
+   technique="exhaustive bounded enumeration of inputs (deviation-bounded malformed values, all truncations / byte substitutions, all mux frame headers x stream states) through the real decoders and connection stages under a panic and allocation monitor"),
  "C11": dict(
    category="exploration", design="DESIGN.md §4 C11",
    text="Exhaustive small-scope enumeration on the real Schedule::new/view_leader: every weight vector over {1,2,3} up to 4 (quick) / 5 (thorough) validators x every non-empty eligible subset x both modes x frequency {0,1,2,3,7}, unit schedule of 10, extreme weights; every view of a 2268-element boundary set; every permutation of the input list. Oracle: no panic, eligible-only, order-independent, equality with an independent reference (own Keccak call, u128 reduction), constant for frequency 0, proportional share over 2000 turns.",
